@@ -108,6 +108,7 @@ def prop(case):
     labels.append('style_' + nl['style'])
     if case['c_reuse']: labels.append('c_reuse')
     if case['strip_forks']: labels.append('strip_forks')
+    if case['strip_forks'] and nl.get('frev') and any(m in 'CL' for m in nl['w'].values()): labels.append('stripped_chain_built_downstream_first')
     nontrivial = depth >= 3 and (reconv or state_feeds or open_pin or sims % 8 != 0 or cycles >= 2)
     return Obs(nontrivial, labels, checks=len(nl['po']) + len(nl['st']))
 
